@@ -40,3 +40,23 @@ static int ref_has_delim1(const unsigned char *d, size_t n, unsigned char b) {
     return 0;
 }
 #endif
+
+/* ---- Content-Disposition parameter value (C14: "names/filenames incl. escaped quotes") -------------------------------------
+ * Independent reference, from the documented rule ("Allow " and \ to be escaped"): the value is a quoted string; inside it a
+ * backslash followed by '"' or '\' is an escape pair standing for that second byte; any other backslash is an ordinary byte;
+ * the first '"' that is not the second byte of an escape pair closes the value.
+ * t[0..n) = the bytes right after the opening quote.  Returns the offset of the closing quote (and the decoded content in out /
+ * *outlen), or n when the string is not closed. */
+#ifndef MPART_REF_CD
+#define MPART_REF_CD
+static size_t ref_cd_quoted(const unsigned char *t, size_t n, unsigned char *out, size_t *outlen) {
+    size_t i = 0, o = 0;
+    while (i < n) {
+        if (t[i] == '"') { *outlen = o; return i; }
+        if (t[i] == '\\' && i + 1 < n && (t[i + 1] == '"' || t[i + 1] == '\\')) { out[o++] = t[i + 1]; i += 2; continue; }
+        out[o++] = t[i]; i++;
+    }
+    *outlen = o;
+    return n;
+}
+#endif
